@@ -66,7 +66,8 @@ def cases(tier, seed):
             if j % 3 == 0:
                 cs.append({'scen': 'ttsvd', 's': dict(base, entry='numpy')})
             if j % 3 == 1 and d >= 2:
-                cs.append({'scen': 'ttsvd', 's': dict(base, rmax='sym', rmax_hi=3)})
+                for rm in (1, 2, 3):
+                    cs.append({'scen': 'ttsvd', 's': dict(base, rmax=rm)})
             if j % 3 == 2 and d >= 2:
                 cs.append({'scen': 'ttsvd', 's': dict(base, rmax=[1] + [1 + (k % 2) for k in range(d - 1)] + [1])})
     # constructor with an explicit shape argument (reshape first), incl. order-1 target and singleton modes
@@ -89,12 +90,13 @@ def cases(tier, seed):
             if j % 2 == 0:
                 cs.append({'scen': 'ttsvd', 's': dict(base, entry='numpy')})
             if j % 2 == 1 and d >= 2:
-                cs.append({'scen': 'ttsvd', 's': dict(base, rmax='sym', rmax_hi=3)})
+                for rm in (1, 2):
+                    cs.append({'scen': 'ttsvd', 's': dict(base, rmax=rm)})
     return cs
 
 
 def opts(tier):
-    return {'logic': None, 'qtimeout_ms': 20000, 'final_timeout_ms': 60000 if tier == 'quick' else 240000,
+    return {'logic': 'QF_NRA', 'qtimeout_ms': 20000, 'final_timeout_ms': 60000 if tier == 'quick' else 240000,
             'max_paths': 600 if tier == 'quick' else 3000, 'case_timeout_s': 500 if tier == 'quick' else 3000,
             'scalar_mode': 'A', 'setup': {'factor_mode': 'exact', 'signs': False}}
 
@@ -117,7 +119,7 @@ def meta(tier):
         'bounds': 'K: rank_chop on symbolic sorted non-negative vectors of length 1..6 (thorough 8) with a symbolic threshold of any sign. '
                   'S: dense inputs of order 1..4 (thorough 5), mode sizes 1..3 (4), with <= 4 (5) non-zero entries of symbolic positive magnitude on sparsity patterns on which '
                   'every unfolding of the sweep has rows or columns with disjoint supports (structurally-orthogonal class: exact symbolic SVD); eps symbolic in (0,1); '
-                  'rmax absent, a symbolic integer in [1,3], or a per-bond list; torch and numpy sources, shape argument, operator shapes; patterns: seeded sample + diagonals',
+                  'rmax absent, each of 1..3, or a per-bond list; torch and numpy sources, shape argument, operator shapes; patterns: seeded sample + diagonals',
         'outside': 'dense inputs outside the structurally-orthogonal class (general SVD is not encodable), float32/complex SVD, IEEE rounding (reals; the "up to roundoff" slack is 1e-9 relative), '
                    'the unfolding-rank bound is checked against the generic (term) rank of the pattern, which equals the exact rank on this class',
         'assumptions': ['torch.linalg.svd replaced by the exact structural SVD model of tv/factor.py (one valid SVD; ties broken either way by the explorer)',
